@@ -38,8 +38,14 @@ def printable(seq):
     return True
 
 
+BOUNDARY = [999999.5, 999999.7, 999999.96, 999999.4, 99999.95, 99999.96, 9999.996, 9.999996, 0.9999996, 0.00009999996,
+            0.000099999949, 9999996.0, 99999960.0, 1000000.0, 1e-4, 0.99999949, 123456.5, 1234565.0, 0.1234565, 999999.5000001]
+
+
 def wide_count():
     r = rng.random()
+    if r < 0.06:
+        return rng.choice(BOUNDARY) * rng.choice([1, 1, 10, 0.1, 1000])
     if r < 0.35:
         return rng.randint(1, 30)
     if r < 0.6:
